@@ -195,6 +195,10 @@ func (pConn *PFCPConn) handleAssociationSetupResponse(msg message.Message) error
 		return errUnmarshal(errMsgUnexpectedType)
 	}
 
+	if asres.Cause == nil {
+		return errUnmarshal(ErrNotFound("Cause IE"))
+	}
+
 	cause, err := asres.Cause.Cause()
 	if err != nil {
 		return errUnmarshal(err)
@@ -204,6 +208,14 @@ func (pConn *PFCPConn) handleAssociationSetupResponse(msg message.Message) error
 		logger.PfcpLog.Errorln("association Setup Response from", addr,
 			"with Cause:", cause)
 		return errReqRejected
+	}
+
+	if asres.NodeID == nil {
+		return errUnmarshal(ErrNotFound("Node ID IE"))
+	}
+
+	if asres.RecoveryTimeStamp == nil {
+		return errUnmarshal(ErrNotFound("Recovery Time Stamp IE"))
 	}
 
 	nodeID, err := asres.NodeID.NodeID()
